@@ -136,9 +136,14 @@ class CookieProber:
 
         # ---- below the threshold a request without a cookie is served normally (and each one adds a half-open IKE_SA)
         guard = 0
+        # (the table is filled either by many initiators or by one and the same request delivered again and again: every copy leaves a
+        #  half-open IKE_SA behind, so copies count like initiators)
+        same = build_init(conn_q, rb(8), rb(32), x) if rr.random() < 0.4 else None
+        if same is not None:
+            self._r('fill.same_request_repeated')
         while not expect_required() and guard < 8:
             guard += 1
-            res = self.fire(node, build_init(conn_q, rb(8), rb(32), x), q, dst)
+            res = self.fire(node, same if same is not None else build_init(conn_q, rb(8), rb(32), x), q, dst)
             if res is None:
                 return
             replies, dh, ch, pre, post = res
